@@ -244,3 +244,57 @@ Definition same_lplant (s1 s2 : lstate) : Prop :=
 Definition lobs (s : lstate) : list (list Q * list bool) * option (list Q * list Q) :=
   (map (fun g => (g_pout g, g_status g)) (l_engs s),
    match l_machine s with Some p => Some (p_shaft p, p_elec p) | None => None end).
+
+(* ------------------------------------------------------------------------------------------ *)
+(* hybrid propulsion system: an electric system and one shaft line that share ONE PTI/PTO machine --
+   component j of the electric system is the machine of the line (HybridPropulsionSystem requires the
+   same object on both sides).  Its electrical power is the component's power_input, its shaft power the
+   component's power_output; the line's p_elec / p_shaft are the same two fields seen from the shaft side.
+   do_power_balance_calculation = electric balance ; shaft balance ; electric balance again when any step
+   is in full-PTI mode. *)
+Record hstate := { h_elec : estate; h_line : lstate; h_j : nat }.
+
+Definition shared_comp (s : hstate) : option mcomp := nth_error (e_comps (h_elec s)) (h_j s).
+
+(* the shaft side reads the machine's shaft power from the shared object *)
+Definition to_line (s : hstate) : hstate :=
+  match shared_comp s, l_machine (h_line s) with
+  | Some m, Some p =>
+      {| h_elec := h_elec s;
+         h_line := {| l_lds := l_lds (h_line s);
+                      l_machine := Some {| p_shaft := map numq (m_pout m); p_full := p_full p; p_elec := map numq (m_pin m) |};
+                      l_engs := l_engs (h_line s) |};
+         h_j := h_j s |}
+  | _, _ => s
+  end.
+(* ... and writes both powers back into it *)
+Definition to_elec_side (s : hstate) : hstate :=
+  match l_machine (h_line s) with
+  | Some p =>
+      {| h_elec := with_comps (update (h_j s) (fun m => with_pout (map Fin (p_shaft p)) (with_pin (map Fin (p_elec p)) m))
+                                      (e_comps (h_elec s))) (h_elec s);
+         h_line := h_line s; h_j := h_j s |}
+  | None => s
+  end.
+
+Definition any_full (s : hstate) : bool :=
+  match l_machine (h_line s) with Some p => existsb (fun b => b) (p_full p) | None => false end.
+
+Section HybridMachine.
+  Variable conv : nat -> num -> num.      (* shaft power from electrical power, per component (C06) *)
+  Variable to_elec : Q -> Q.              (* electrical power from shaft power (C06) *)
+
+  Definition hbalance (s : hstate) : option hstate :=
+    match ebalance conv (h_elec s) with
+    | None => None
+    | Some e1 =>
+        let s1 := to_line {| h_elec := e1; h_line := h_line s; h_j := h_j s |} in
+        let s2 := to_elec_side {| h_elec := h_elec s1; h_line := lbalance to_elec (h_line s1); h_j := h_j s |} in
+        if any_full s2 then
+          match ebalance conv (h_elec s2) with
+          | None => None
+          | Some e3 => Some (to_line {| h_elec := e3; h_line := h_line s2; h_j := h_j s |})
+          end
+        else Some s2
+    end.
+End HybridMachine.
